@@ -40,6 +40,15 @@ def run(tier: str) -> int:
         scen.append((systemcheck.from_rib_history(h, rnd), {'k2': 'y'} if i % 2 else {}, i % 3 == 0))
     for i, steps in enumerate(systemcheck.cut_scenarios(rnd, n_cut)):
         scen.append((steps, {'k2': 'y', 'k1': 'x'} if i % 2 else {'k2': 'y'}, i % 2 == 0))
+    # the same cuts on a neighbour which keeps no Adj-RIB-Out: its configured routes must still come back after every loss
+    for i in range(8 if tier == 'quick' else 60):
+        steps = [{'do': 'est'}, {'do': 'more', 'n': rnd.randint(1, 4)} if i % 2 else {'do': 'sleep', 'ms': rnd.choice([1, 120, 400])}, {'do': 'cut'}]
+        if i % 3 == 0:
+            steps += [{'do': 'sleep', 'ms': 300}, {'do': 'cut'}]
+        if i % 4 == 3:
+            steps += [{'do': 'est'}, {'do': 'sleep', 'ms': 200}, {'do': 'cut'}]
+        steps += [{'do': 'est'}, {'do': 'quiet'}]
+        scen.append((steps, [{'k2': 'y', 'k1': 'x'}, {'k3': 'x'}, {'k1': 'y', 'k3': 'y'}][i % 3], False, True))
     systemcheck.run_system(ck, scen, 'c11' + tier[0])
     return ck.finish()
 
@@ -51,7 +60,7 @@ def replay(path: str) -> int:
         from harness import c04
 
         return c04.replay(path)
-    lines = systemcheck.run_one(c['steps'], 0, c['configured'], c['rate'])
+    lines = systemcheck.run_one(c['steps'], 0, c['configured'], c['rate'], c.get('nocache', False))
     bad, _ = systemcheck.judge(lines, 'replay')
     for ln in lines:
         print({k: v for k, v in ln.items() if v not in ('', [], {})})
